@@ -138,7 +138,7 @@ def corrupt_item(rng, delay):
             k = rng.choice(["del", "dup", "swap_tag", "len", "set_content", "trunc_content", "raw", "len_form", "tag_form"])
             ops.append({"op": k, "node": rng.randrange(0, 60), "tag": rng.choice(SWAP_TAGS), "delta": rng.choice([-3, -1, 1, 2, 100, 5000, 2**31]), "hex": garbage(rng).hex(), "n": rng.randrange(0, 4)})
             if k == "len_form":
-                ops[-1]["form"] = rng.choice(["indef", "indef-eoc", "ff", "max32", "max64", "nine", "wide126", "wide127", "zero-long", "top-bit"])
+                ops[-1]["form"] = rng.choice(["indef", "indef-eoc", "ff", "max32", "max64", "nine", "wide126", "wide127", "zero-long", "top-bit", "alias64", "alias32", "alias16"])
             elif k == "tag_form":
                 ops[-1]["hex"] = rng.choice(["1f00", "1f04", "1f30", "1f8100", "1f8004", "1fffffffffffffffffff7f", "3f10", "5f1f", "bf8000", "1f", "1fff", "ff7f"])
         it["inner"] = ops
